@@ -51,11 +51,15 @@ def r47(rep: Report, ctx: Ctx) -> None:
     """(shared with C01 R1.12)  Chunked learning equals one-shot learning only
     if whether a job is ingested never depends on what else the same run
     contains: every job graph of the stream is ingested."""
-    rep.rule("R4.7", "every job of a chunk is ingested, independently of the "
-             "other jobs of the same run", 2)
+    rep.rule("R4.7", "every job of a chunk is ingested (with its dummy start "
+             "link), independently of the other jobs of the run and of the "
+             "loaded model", 5)
     from . import c01 as _c01
     sub = Report("C01", ctx.index)
     _c01.r112(sub, ctx)
+    # ... nor on what the loaded model already contains: every job gets its
+    # dummy start link, whether or not the model knows the dummy start
+    _c01.r14(sub, ctx)
     for o in sub.obligations:
         o.rule = "R4.7"
         rep.obligations.append(o)
